@@ -39,6 +39,7 @@ def equate(a: Quantity, b: Quantity) -> None:
 
     _ratios[a.unit][b.unit] = _div(b.magnitude, a.magnitude)
     _ratios[b.unit][a.unit] = _div(a.magnitude, b.magnitude)
+    _forget_plans()
 
 
 def translate(scale: Unit, zero: Quantity) -> None:
@@ -55,6 +56,14 @@ def translate(scale: Unit, zero: Quantity) -> None:
 
     _offsets[degree][scale] = -offset
     _offsets[scale][degree] = +offset
+    _forget_plans()
+
+
+def _forget_plans() -> None:
+    """Plans and paths (including "no path") are memoised; they are only valid for
+    the equivalences declared when they were computed"""
+    _plan_conversion.cache_clear()
+    _find_path.cache_clear()
 
 
 class ConversionNotFound(ValueError):
